@@ -202,7 +202,20 @@ def run(rep, tier):
             rep.bad("C09.R3", fn, loc_of(ev), "invoke-without-cas", "the callable can be invoked without winning the status_ compare-exchange: it may run twice")
         cas = [e for _, _, e in fn.all_events() if e.get("k") == "call" and callee_short(e) == "compare_exchange_strong"]
         ini = local_init(fn, P(cas[0]["args"][0])) if cas else None
-        if cas and ini is not None and T(strip(ini)) == "0" and P(cas[0]["args"][1]) == "running_value":
+        # the expected value is 0 at *every* execution of the CAS: a failed compare_exchange writes the observed value
+        # (e.g. 'running') into the variable, so it is re-initialised between two executions
+        fresh0 = False
+        if cas:
+            var = P(cas[0]["args"][0])
+            caspos = [(b2, i2) for b2, i2, e in fn.all_events() if e is cas[0]][0]
+            init0 = lambda e, var=var: (e.get("k") == "decl" and e.get("var") == var and not e.get("static") and e.get("init") is not None and T(strip(e["init"])) == "0") or \
+                (e.get("k") == "write" and P(e["lhs"]) == var and e.get("op", "=") == "=" and T(strip(e.get("rhs"))) == "0")
+            fresh0 = bool(precedes_on_all_paths(fn, init0, caspos, reset_pred=lambda e: e is cas[0]))
+        anyinit0 = bool(cas) and any(init0(e) for _, _, e in fn.all_events())
+        if cas and anyinit0 and P(cas[0]["args"][1]) == "running_value" and not fresh0:
+            rep.bad("C09.R3", fn, loc_of(cas[0]), "cas-expected-stale", "the expected value of the entry compare-exchange is not reset to 0 between two attempts: after a failed "
+                    "attempt it holds 'running', so a retry succeeds (running -> running) while another caller is executing the callable - the callable runs twice, concurrently")
+        elif cas and fresh0 and P(cas[0]["args"][1]) == "running_value":
             rep.ok("C09.R3", fn, "CAS is 0 -> running")
         else:
             rep.bad("C09.R3", fn, fn.loc, "cas-values", "the entry compare-exchange must be 0 -> running")
